@@ -264,4 +264,18 @@ def run_verus_file(uid, gen_text, obls, workdir, timeout=600, rlimit=100):
     res.obls = obls
     res.assumptions = scan_assumptions(gen_text)
     res.verified_count = vr.get("verified", 0)
+    # thorough tier: proof-stability re-run with two other SMT seeds; a verdict that changes with the seed is not trusted
+    if os.environ.get("VERIF_TIER_CUR") == "thorough" and not res.undecided:
+        res.stability = []
+        for seed in (7, 1234):
+            try:
+                p2 = subprocess.run(cmd + ["--smt-option", f"smt.random_seed={seed}", "--smt-option", f"sat.random_seed={seed}"], cwd=workdir, capture_output=True, text=True, timeout=timeout)
+                js2 = json.loads(p2.stdout)
+                v2 = js2.get("verification-results", {})
+                same = (v2.get("verified"), v2.get("errors")) == (vr.get("verified"), vr.get("errors"))
+            except Exception as e:
+                same = False; v2 = {"error": str(e)}
+            res.stability.append({"seed": seed, "same_verdict": same})
+            if not same:
+                res.undecided = f"unstable proof: verdict changes with the SMT seed {seed} ({v2}) vs ({vr.get('verified')}, {vr.get('errors')})"
     return res
